@@ -191,9 +191,9 @@ def run_scalars(omp, res, seed):
                 v.bad("C17.accepts", "legal-call-raises:" + type(e).__name__, "numpy %s %s: %r" % (k, vname, e), kind=k, view=vname)
         # xobject arrays as pointer arguments (objects at offset != 0, after a relocation)
         T = getattr(xo, xt.XONAME[k])
-        buf = place.traced("np", 8, context=ctx)
-        buf.allocate(5, align=False)
-        for acls, val in ((T[:], base[:5]), (T[3], base[:3]), (T[2, 3], base[:6].reshape(2, 3))):
+        for bkind, acls, val in [(bk,) + av for bk in ("np", "ba") for av in ((T[:], base[:5]), (T[3], base[:3]), (T[2, 3], base[:6].reshape(2, 3)))]:
+            buf = place.traced(bkind, 8, context=ctx)
+            buf.allocate(5, align=False)
             res.transitions += 2
             res.events["xobject-array-pointer"] += 1
             try:
@@ -203,7 +203,7 @@ def run_scalars(omp, res, seed):
                 first = getattr(K, "first_" + k)(p=xa)
                 want = base_of(buf) + xa._offset + xa._data_offset
                 if int(addr) != want:
-                    v.bad("C17.array-pointer", "xobject-array-not-first-element", "addr_%s(%s) -> %#x, expected %#x" % (k, acls.__name__, int(addr), want), kind=k, view=acls.__name__)
+                    v.bad("C17.array-pointer", "xobject-array-not-first-element", "addr_%s(%s in a %s buffer) -> %#x, expected %#x" % (k, acls.__name__, bkind, int(addr), want), kind=k, view=acls.__name__, buffer_kind=bkind)
                 elif not same_bits(dt, first, val.flat[0]):
                     v.bad("C17.array-pointer", "xobject-array-first-value", "first_%s -> %r" % (k, first), kind=k, view=acls.__name__)
                 else:
@@ -216,6 +216,8 @@ def run_scalars(omp, res, seed):
         wrong = []
         # the two public ways to reach a kernel of a context: the dispatcher attribute and the kernel object itself (item access)
         for route, get in (("attr", lambda nm: getattr(K, nm)), ("item", lambda nm: K[nm])):
+            if np.dtype(dt).itemsize > 1:  # the right kind and width in the other byte order is another element type
+                wrong += [("wrong-byteorder-numpy:" + route, lambda get=get: get("first_" + k)(p=np.ones(4, dtype=np.dtype(dt).newbyteorder())))]
             wrong += [("wrong-dtype-numpy:" + route, lambda get=get: get("first_" + k)(p=np.ones(4, dtype=other))),
                       ("wrong-dtype-xobject:" + route, lambda get=get: get("first_" + k)(p=getattr(xo, xt.XONAME[okind])[:]([1, 2, 3], _context=ctx))),
                       ("positional:" + route, lambda get=get: get("id_" + k)(1)), ("missing:" + route, lambda get=get: get("st_" + k)(x=1)),
